@@ -154,8 +154,8 @@ func vpAssume(fr *frame, a []value) value {
 			panic(pathEnd{"assumption infeasible"})
 		}
 		if r == Unknown {
-			m.unknowns++
-			m.E.noteUnknown("assume feasibility unknown")
+			m.branchUnknowns++ // the assumption is taken as satisfiable (over-approximation, see decide)
+			m.E.noteUnknown("assume feasibility unknown, taken as feasible")
 		}
 		m.addPC(c)
 		if v, ok := m.evalUnderModel(c); !ok || v != 1 {
